@@ -196,10 +196,15 @@ def build_unit(chk):
     sysc = simx.syscall_fn(m, in_ty)
     cond, step, ret = simx.run_parts(m)
     tb_prelude = tbunit.TB_PRELUDE.replace("#ifndef TB_NO_GLOBALS\nbool verif_thrown;\n#endif\n", "bool verif_thrown;\n")
-    text = (pre + vtext + tb_prelude + consts + en + simunit.GHOST_IO + fld + simunit.ACCESSORS + io + sysc + simunit.NO_TRACE_STUBS + step + simunit.hidden_text(chk, m, names)
+    text = (pre + vtext + tb_prelude + consts + en + simunit.GHOST_IO + fld + simunit.ACCESSORS + names.get("__helpers__", "") + io + sysc + simunit.NO_TRACE_STUBS + step + simunit.hidden_text(chk, m, names)
             + "#define TB_SYSCALL_ENTRY(sc) ((void)0)\n" + tbx.handleSyscall(m))
     rp, prologue = tbx.run_parts(m)
-    text += rp + tbunit.TB_POWER_ON.replace("#ifdef HEX_CBMC\n", "#ifdef HEX_CBMC\n", 1)
+    text += rp
+    protos, defs = hv.pull_helpers(text, "hextb.cpp", m)
+    if protos:
+        i = text.index("#define TB_SYSCALL_ENTRY")
+        text = text[:i] + protos + text[i:] + defs
+    text += tbunit.TB_POWER_ON.replace("#ifdef HEX_CBMC\n", "#ifdef HEX_CBMC\n", 1)
     # hexsim's havoc_state from the shared harness text
     hs = simunit.HARNESS
     i = hs.index("static void havoc_state(void) {")
